@@ -5,6 +5,24 @@ From DV Require Import Model.Sched Proofs.SchedLib Proofs.SchedOrg Proofs.SchedB
 Import ListNotations.
 
 (* ---- avail ---- *)
+(* the last step of dispatch is `if <archive tick> then (leave ...) else (wait ...)`:
+   both branches carry the same node table, queue, jobs, cluster, busy list and
+   in-flight list *)
+Ltac tail_fields :=
+  match goal with
+  | |- context [if ?b then (set_flags (set_farm ?s3 ?j ?cl ?bz [] ?fl) false ?p ?st, ?o)
+                else (set_farm ?s3 ?j ?cl ?bz ?w ?fl, ?o')] =>
+    let r := constr:(if b then (set_flags (set_farm s3 j cl bz [] fl) false p st, o)
+                     else (set_farm s3 j cl bz w fl, o')) in
+    assert (TC : cluster (fst r) = cl) by (destruct b; reflexivity);
+    assert (TF : inflight (fst r) = fl) by (destruct b; reflexivity);
+    assert (TJ : jobs (fst r) = j) by (destruct b; reflexivity);
+    assert (TB : busy (fst r) = bz) by (destruct b; reflexivity);
+    assert (TN : ns (fst r) = ns s3) by (destruct b; reflexivity);
+    assert (TQ : que (fst r) = que s3) by (destruct b; reflexivity);
+    rewrite ?TC, ?TF, ?TJ, ?TB, ?TN, ?TQ
+  end.
+
 Lemma avail_sub c l q x t : In t (avail c l q x) ->
   In t (todo (getn l x)) /\ ~ In t (doing (getn l x)).
 Proof.
@@ -187,8 +205,9 @@ Proof.
   set (o0 := if archive s2 && _ then [OArchive] else []).
   pose proof (put_jobs_que c (jobs s2) (s2, o0)) as P.
   destruct (fold_left (put_job c) (jobs s2) (s2, o0)) as [s3 o1]. cbn [fst] in P.
-  destruct (hand_out _ _ _ _ _) as [[[[cl' w'] b'] fl'] o2]. cbn [fst que set_farm].
-  rewrite P. unfold s2. cbn [que set_farm]. exact Q.
+  destruct (hand_out _ _ _ _ _) as [[[[cl' w'] b'] fl'] o2].
+  destruct (archive s2 && _); cbn [fst que set_farm set_flags];
+  rewrite P; unfold s2; cbn [que set_farm]; exact Q.
 Qed.
 
 Lemma njb_new_doing c s x t :
@@ -447,7 +466,7 @@ Proof.
   destruct (hand_out (cluster_sort (cluster s3)) (workers_sort (workers s3)) (busy s3) (inflight s3) o1)
     as [[[[cl' w'] b'] fl'] o2] eqn:H.
   apply hand_out_spec in H. destruct H as (k & Hk & E1 & E2 & E3 & E4 & E5).
-  cbn [fst cluster inflight set_farm].
+  tail_fields. clear TC TF TJ TB TN TQ.
   assert (Ws : workers s3 = workers s) by (rewrite W3; unfold s2; cbn; exact W1).
   assert (Fs : inflight s3 = inflight s) by (rewrite F3; unfold s2; cbn; exact F1).
   assert (Cs : cluster s3 = cluster s ++ ms) by (rewrite C3; unfold s2; cbn; rewrite C1; reflexivity).
@@ -607,13 +626,16 @@ Proof.
   set (o0 := if archive s2 && _ then [OArchive] else []).
   destruct (fold_left (put_job c) (jobs s2) (s2, o0)) as [s3 o1] eqn:P.
   apply put_jobs_clear in P. destruct P as [Jc Dc].
-  destruct (hand_out _ _ _ _ _) as [[[[cl' w'] b'] fl'] o2]. cbn [fst]. split.
-  - cbn [jobs set_farm]. destruct (jobs s3) as [|z r] eqn:E; [reflexivity|]. exfalso.
-    destruct (Jc z (or_introl eq_refl)) as [Hz Nz]. contradiction.
-  - intros y. cbn [ns set_farm]. destruct (do_ (getn (ns s3) y)) as [|t r] eqn:E; [reflexivity|]. exfalso.
+  destruct (hand_out _ _ _ _ _) as [[[[cl' w'] b'] fl'] o2].
+  assert (G1 : jobs s3 = []).
+  { destruct (jobs s3) as [|z r] eqn:E; [reflexivity|]. exfalso.
+    destruct (Jc z (or_introl eq_refl)) as [Hz Nz]. contradiction. }
+  assert (G2 : forall y, do_ (getn (ns s3) y) = []).
+  { intros y. destruct (do_ (getn (ns s3) y)) as [|t r] eqn:E; [reflexivity|]. exfalso.
     assert (Hin : In t (do_ (getn (ns s3) y))) by (rewrite E; left; reflexivity).
     destruct (Dc y t Hin) as [Ht Ny].
-    apply Ny. unfold s2. cbn [jobs set_farm ns] in *. rewrite J1, Hj. cbn [app]. apply (NB y t). exact Ht.
+    apply Ny. unfold s2. cbn [jobs set_farm ns] in *. rewrite J1, Hj. cbn [app]. apply (NB y t). exact Ht. }
+  destruct (archive s2 && _); cbn [fst jobs ns set_farm set_flags]; split; assumption.
 Qed.
 
 Lemma organize_I_do c names r tg s : length (ns s) = nnodes c -> I_do s -> I_do (organize c names r tg s).
